@@ -163,7 +163,8 @@ Definition wired (t : tbl) (field : name) : option (csig * sem) :=
 
 (* ================================================================ scenarios *)
 Inductive arg := AZ (z : Z) | AB (b : option (list N)).
-Inductive op := OSelect (scope : option (list N)) | OCall (t : tbl) (field : name) (args : list arg).
+Inductive op := OSelect (scope : option (list N)) | OCall (t : tbl) (field : name) (args : list arg)
+              | ONewTest.     (* the test ends here and the next one begins: the mock state and the pointers the user holds are kept *)
 
 (* C values bound to the parameters of a signature; generic arguments are consumed left to right: byte strings by pointers to
    characters / buffers / objects, numbers by integers, doubles (bit pattern) and the remaining pointers; a size_t is the length
@@ -226,6 +227,7 @@ Inductive xop :=
 | XInstallCmp (h : handle) (tyname : xarg) (equal to_string : xarg)    (* h->installComparator(tyname, <object whose isEqual is `equal` and whose valueToString is `to_string`>) *)
 | XInstallCopy (h : handle) (tyname : xarg) (copier : xarg)            (* h->installCopier(tyname, <object whose copy is `copier`>) *)
 | XRemoveAll (h : handle)
+| XNewTest
 | XStuck.
 
 (* the three pointers: statics of MockSupport_c.cpp for the C interface, locals of the test for the C++ interface *)
@@ -296,6 +298,7 @@ Definition step (lookup : tbl -> name -> option (csig * sem)) (sel : bool) (I : 
   : ptrs * adaptors * xop :=
   match o with
   | OSelect sc => if sel then (set_ptr p RSup (HSup sc), ad, XSelect sc) else (p, ad, XStuck)
+  | ONewTest => (p, ad, XNewTest)      (* C: the statics stay; C++: the user keeps his references (or selects again) *)
   | OCall t f args => match lookup t f with
                       | Some (sg, s) => apply_sem I p ad k f sg s args
                       | None => (p, ad, XStuck)
@@ -315,7 +318,7 @@ Definition x_trace (ops : list op) : list xop := trace_from denote true x_instal
 (* valid scenarios: every op names an entry of the header and its arguments fit the C signature *)
 Definition op_valid (o : op) : bool :=
   match o with
-  | OSelect _ => true
+  | OSelect _ | ONewTest => true
   | OCall t f args => match denote t f with
                       | Some (sg, _) => match bind f (snd sg) args 0%N with Some _ => true | None => false end
                       | None => false
@@ -514,21 +517,32 @@ Record mres := { r_fail : option (list N); r_by : raiser; r_val : xres }.      (
 Record machine := { mst : Type; minit : mst; mexec : mst -> nat -> xop -> mst * mres; mouts : mst -> list (N * list N) }.
 
 Record oval := { v_op : N; v_canon : canon }.
-Record half := { h_fail : option (N * list N); h_crash : N; h_vals : list oval; h_outs : list (N * list N) }.
+(* one test of the scenario: the op at which it was left with the failure text, and how often the crash hook ran *)
+Record tres := { t_fail : option (N * list N); t_crash : N }.
+Record half := { h_tests : list tres; h_vals : list oval; h_outs : list (N * list N) }.
 Record obs := { o_c : half; o_x : half }.
+Definition t_pass : tres := {| t_fail := None; t_crash := 0 |}.
+(* the reporters after a failure: MockSupport::failTest has cleared the support; a call object reports without clearing *)
+Definition rs_failed (L : rlayer) (s' : rstate) (x : xop) (by_ : raiser) : rstate :=
+  match by_, receiver x with BySupport, Some sc => rs_clear L s' sc | _, _ => s' end.
 
+(* skip = the current test has failed (its result is in `done`): its remaining ops are not executed *)
 Fixpoint exec (M : machine) (L : rlayer) (observe : rwrap -> xres -> option canon) (st : mst M) (rs : rstate) (k : nat) (tr : list xop)
-              (vals : list oval) : half :=
+              (vals : list oval) (done : list tres) (skip : bool) : half :=
   match tr with
-  | [] => {| h_fail := None; h_crash := 0; h_vals := rev vals; h_outs := mouts M st |}
+  | [] => {| h_tests := rev (if skip then done else t_pass :: done); h_vals := rev vals; h_outs := mouts M st |}
+  | XNewTest :: r => exec M L observe (fst (mexec M st k XNewTest)) rs (S k) r vals (if skip then done else t_pass :: done) false
   | x :: r =>
-      let (st', res) := mexec M st k x in
-      let rs' := rstep L rs k x in
-      match r_fail res with
-      | Some text => {| h_fail := Some (N.of_nat k, text); h_crash := crash_on L rs rs' x (r_by res); h_vals := rev vals; h_outs := mouts M st' |}
-      | None => exec M L observe st' rs' (S k) r
-                  (match observe (wrap_of x) (r_val res) with Some c => {| v_op := N.of_nat k; v_canon := c |} :: vals | None => vals end)
-      end
+      if skip then exec M L observe st rs (S k) r vals done true
+      else
+        let (st', res) := mexec M st k x in
+        let rs' := rstep L rs k x in
+        match r_fail res with
+        | Some text => exec M L observe st' (rs_failed L rs' x (r_by res)) (S k) r vals
+                         ({| t_fail := Some (N.of_nat k, text); t_crash := crash_on L rs rs' x (r_by res) |} :: done) true
+        | None => exec M L observe st' rs' (S k) r
+                    (match observe (wrap_of x) (r_val res) with Some c => {| v_op := N.of_nat k; v_canon := c |} :: vals | None => vals end) done false
+        end
   end.
 (* the reporter each interface hands to mock(): C: what the regenerated mock_c / mock_scope_c forwarders pass; C++: nothing *)
 Definition c_reporter_name : name := "&failureReporterForC".
@@ -537,7 +551,8 @@ Definition faithful_layer (given : scope -> reporter) : rlayer := {| l_given := 
 Definition c_layer : rlayer := faithful_layer (fun sc => given_of (resolve (if is_global sc then "mock_c" else "mock_scope_c"))).
 Definition x_layer : rlayer := faithful_layer (fun _ => RepStd).
 Definition run_layers (Lc Lx : rlayer) (M : machine) (ops : list op) : obs :=
-  {| o_c := exec M Lc observe_c (minit M) rstate0 0 (c_trace ops) []; o_x := exec M Lx (fun _ => observe_x) (minit M) rstate0 0 (x_trace ops) [] |}.
+  {| o_c := exec M Lc observe_c (minit M) rstate0 0 (c_trace ops) [] [] false;
+     o_x := exec M Lx (fun _ => observe_x) (minit M) rstate0 0 (x_trace ops) [] [] false |}.
 Definition run_with : machine -> list op -> obs := run_layers c_layer x_layer.
 
 (* the machine used by the extracted model: no checked calls, nothing fails, nothing is returned (the C++ machinery itself is the
@@ -546,8 +561,8 @@ Definition machine0 : machine :=
   {| mst := unit; minit := tt; mexec := fun st _ _ => (st, {| r_fail := None; r_by := ByAssert; r_val := RNone |}); mouts := fun _ => [] |}.
 Definition run : list op -> obs := run_with machine0.
 
-(* spec: the two interfaces gave the same verdict, left the test at the same op with the same text and the same number of runs of the
-   crash hook, returned the same values with
+(* spec: test by test the two interfaces gave the same verdict, left the test at the same op with the same text and the same number of
+   runs of the crash hook; they returned the same values with
    the same type tags at the same ops, and left the same bytes in the output buffers *)
 Definition pk_eqb (a b : pk) : bool := match a, b with PVoid, PVoid | PConst, PConst | PFunc, PFunc | PMem, PMem | PObj, PObj => true | _, _ => false end.
 Definition canon_eqb (a b : canon) : bool :=
@@ -557,13 +572,15 @@ Definition canon_eqb (a b : canon) : bool :=
   end.
 Fixpoint list_eqb {A} (e : A -> A -> bool) (a b : list A) : bool :=
   match a, b with [], [] => true | x :: a', y :: b' => e x y && list_eqb e a' b' | _, _ => false end.
-Definition half_eqb (a b : half) : bool :=
-  match h_fail a, h_fail b with
+Definition tres_eqb (a b : tres) : bool :=
+  match t_fail a, t_fail b with
   | None, None => true
   | Some (i, s), Some (j, t) => (i =? j)%N && bytes_eqb s t
   | _, _ => false
   end
-  && (h_crash a =? h_crash b)%N
+  && (t_crash a =? t_crash b)%N.
+Definition half_eqb (a b : half) : bool :=
+  list_eqb tres_eqb (h_tests a) (h_tests b)
   && list_eqb (fun x y => (v_op x =? v_op y)%N && canon_eqb (v_canon x) (v_canon y)) (h_vals a) (h_vals b)
   && list_eqb (fun x y => (fst x =? fst y)%N && bytes_eqb (snd x) (snd y)) (h_outs a) (h_outs b).
 Definition spec (ops : list op) (o : obs) : bool := half_eqb (o_c o) (o_x o).
